@@ -321,6 +321,25 @@ CATALOGUE = [
     ('c04_position_uses_old_speed', 'C04', S,
      "        self.__powertrain.elements[-1].angular_speed += \\\n            self.__powertrain.elements[-1].angular_acceleration * \\\n            time_discretization\n        self.__powertrain.elements[-1].angular_position += \\\n            self.__powertrain.elements[-1].angular_speed*time_discretization",
      "        old_speed = self.__powertrain.elements[-1].angular_speed\n        self.__powertrain.elements[-1].angular_speed += \\\n            self.__powertrain.elements[-1].angular_acceleration * \\\n            time_discretization\n        self.__powertrain.elements[-1].angular_position += \\\n            (old_speed*3 - self.__powertrain.elements[-1].angular_speed*2)*time_discretization"),
+    # ---- C19
+    ('c19_surface_no_positivity_check', 'C19', 'gearpy/units/units.py',
+     "@L2095:        if value <= 0:", "        if value < 0:"),
+    ('c19_inertia_div_bypasses_constructor', 'C19', 'gearpy/units/units.py',
+     "            return InertiaMoment(value=self.__value/other, unit=self.__unit)",
+     "            result = InertiaMoment(value=1, unit=self.__unit)\n            result._InertiaMoment__value = self.__value/other\n            return result"),
+    ('c19_length_inplace_conversion_to_zero', 'C19', 'gearpy/units/units.py',
+     "@L1891:        if value <= 0:", "        if value <= 0 and unit != 'dm':"),
+    ('c19_motor_no_load_speed_unchecked', 'C19', M,
+     "        if no_load_speed.value <= 0:", "        if no_load_speed.value < 0:"),
+    ('c19_teeth_minimum_off_by_one', 'C19', 'gearpy/mechanical_objects/mechanical_object_base.py',
+     "        if n_teeth < MINIMUM_TEETH_NUMBER:", "        if n_teeth < MINIMUM_TEETH_NUMBER - 1:"),
+    ('c19_helix_limit_strict', 'C19', 'gearpy/mechanical_objects/helical_gear.py',
+     "        if helix_angle >= Angle(90, 'deg'):", "        if helix_angle > Angle(90, 'deg'):"),
+    ('c19_pwm_upper_bound_dropped', 'C19', M,
+     "        if (pwm > 1) or (pwm < -1):", "        if (pwm < -1):"),
+    ('c19_current_order_unchecked', 'C19', M,
+     "            if no_load_electric_current >= maximum_electric_current:",
+     "            if no_load_electric_current > maximum_electric_current:"),
 ]
 
 
@@ -330,6 +349,17 @@ def apply(src_root, mut):
     p = os.path.join(src_root, rel)
     with open(p) as f:
         s = f.read()
+    if old.startswith('@L'):
+        # line-addressed mutant: '@L<n>:<exact text of line n>'
+        n, text = old[2:].split(':', 1)
+        lines = s.split('\n')
+        if lines[int(n) - 1] != text:
+            raise RuntimeError(f'{mid}: line {n} of {rel} is '
+                               f'{lines[int(n) - 1]!r}, expected {text!r}')
+        lines[int(n) - 1] = new
+        with open(p, 'w') as f:
+            f.write('\n'.join(lines))
+        return
     if s.count(old) != count:
         raise RuntimeError(f'{mid}: pattern occurs {s.count(old)}x in {rel}, '
                            f'expected {count}')
